@@ -5,7 +5,7 @@ use crate::{
     repr::{Context, Repr, Word},
     round::Round,
 };
-use core::{num::IntErrorKind, str::FromStr};
+use core::{convert::TryFrom, num::IntErrorKind, str::FromStr};
 use dashu_base::{ParseError, Sign};
 use dashu_int::{
     fmt::{MAX_RADIX, MIN_RADIX},
@@ -85,7 +85,9 @@ impl<const B: Word> Repr<B> {
         };
 
         // parse the body of the float number
-        let mut exponent = scale;
+        // the exponent is accumulated in a wider type: scale - fraction digits + stripped zeros
+        // may leave the range of isize in between (or for good)
+        let mut exponent = scale as i128;
         let ndigits;
         let significand = if let Some(dot) = src.find('.') {
             // check whether both integral part and fractional part are empty
@@ -139,7 +141,7 @@ impl<const B: Word> Repr<B> {
             if fract.is_zero() {
                 int
             } else {
-                exponent -= fract_digits as isize;
+                exponent -= fract_digits as i128;
                 int * UBig::from_word(B).pow(fract_digits) + fract
             }
         } else {
@@ -156,8 +158,19 @@ impl<const B: Word> Repr<B> {
             }
         };
 
-        let repr = Repr::new(sign * significand, exponent);
-        Ok((repr, ndigits))
+        let repr = Repr::new(sign * significand, 0);
+        if repr.significand.is_zero() {
+            return Ok((repr, ndigits));
+        }
+        let exponent = isize::try_from(exponent + repr.exponent as i128)
+            .map_err(|_| ParseError::InvalidDigit)?;
+        Ok((
+            Repr {
+                significand: repr.significand,
+                exponent,
+            },
+            ndigits,
+        ))
     }
 }
 
